@@ -537,6 +537,20 @@ func structuralEdits() []Edit {
 			return true
 		})
 	}
+	// the same on schemas that have no "properties" of their own before the edit
+	add("required-property-added", "body.no-properties(map)", "postThing", false, func(o, w J, wt *Witness) bool {
+		s := props(def(w, "Thing"))["attrs"].(J)
+		s["properties"] = J{"newprop": J{"type": "integer"}}
+		setRequired(s, "newprop", true)
+		wt.Body.(J)["attrs"] = J{"k1": n("50")}
+		return true
+	})
+	add("required-property-added", "body.no-properties(allOf)", "postThing", false, func(o, w J, wt *Witness) bool {
+		s := props(def(w, "Thing"))["mixed"].(J)
+		s["properties"] = J{"newprop": J{"type": "string"}}
+		setRequired(s, "newprop", true)
+		return true
+	})
 	add("required-property-added", "body.inline", "putDoc", false, func(o, w J, wt *Witness) bool {
 		s := findParam(w, "/docs", "put", "body", "doc")["schema"].(J)
 		props(s)["newprop"] = J{"type": "string"}
